@@ -260,4 +260,6 @@ def check(ctx, R):
     R.run("C20.e", rule_e, ctx)
     R.run("C20.f", rule_f, ctx)
     R.run("C20.g", rule_g, ctx)
+    from . import preds
+    R.run("C20.p", lambda R, c: preds.rule(R, c, "C20.p", ["adjacent_left", "adjacent_right"]), ctx)
     return {}
